@@ -83,6 +83,9 @@ pub enum Ev {
     /// The operator changes parser `p`'s `allowed_versions` (a public field) at run time; the
     /// caches keep what was learned under the previous setting.
     Reconfigure { t: u64, p: usize, allowed: Vec<u16> },
+    /// The operator drops what parser `p` has learned for one or both protocols by assigning
+    /// a default sub-parser to the public field (`parser.v9_parser = V9Parser::default()`).
+    ResetCaches { t: u64, p: usize, v9: bool, ipfix: bool },
 }
 
 impl Ev {
